@@ -13,7 +13,7 @@ package encryption
 //@ func Validate
 //@ safety
 //@ prop C09
-//@ ensures[window] ok && expiration != 0 ==> t > ret(time.Now#0) - expiration && t < ret(time.Now#1) + 300000000000
+//@ ensures[window] ok && expiration != 0 ==> t > retfirst(time.Now) - expiration && t < retlast(time.Now) + 300000000000
 //@ ensures[timestamp] ok ==> strconv.Atoi(part(old(cookie.Value), 1)) * 1000000000 == t
 //@ prop C02
 //@ ensures[three-parts] ok ==> nparts(old(cookie.Value)) == 3
